@@ -586,6 +586,12 @@ def mesh_sweep(ctx):
             out.append((2, nr, nt, 1))
             for nz in nzs:
                 out.append((3, nr, nt, nz))
+    # radially fine meshes (many thin layers): a surface tolerance tied to the wall thickness instead
+    # of the element size would pick up the second layer there
+    for nr in ((24, 45) if ctx.quick() else (12, 24, 33, 45, 64)):
+        out.append((1, nr, 1, 1))
+        out.append((2, nr, 4, 1))
+        out.append((3, nr, 4, 2))
     return out
 
 
